@@ -179,13 +179,14 @@ type site struct {
 }
 
 type keyElem struct {
-	c     string
-	param int // >=0: parameter index of the enclosing function; -1: constant c
+	c      string
+	param  int    // >=0: parameter index of the enclosing function; -1: constant c
+	suffix string // appended to the parameter's value (prop + "Map")
 }
 
 func (k keyElem) String() string {
 	if k.param >= 0 {
-		return fmt.Sprintf("<param %d>", k.param)
+		return fmt.Sprintf("<param %d>%s", k.param, k.suffix)
 	}
 	return k.c
 }
@@ -417,6 +418,17 @@ func keyOf(v ssa.Value) keyElem {
 	if s, ok := constString(v); ok {
 		return keyElem{c: s, param: -1}
 	}
+	if bo, ok := v.(*ssa.BinOp); ok && bo.Op == token.ADD {
+		if s, ok := constString(bo.Y); ok {
+			base := keyOf(bo.X)
+			switch {
+			case base.param == -1:
+				return keyElem{c: base.c + s, param: -1}
+			case base.param >= 0:
+				return keyElem{param: base.param, suffix: base.suffix + s}
+			}
+		}
+	}
 	if p, ok := v.(*ssa.Parameter); ok {
 		for i, q := range p.Parent().Params {
 			if q == p {
@@ -427,95 +439,134 @@ func keyOf(v ssa.Value) keyElem {
 	return keyElem{c: "<opaque>", param: -2}
 }
 
-// valuePath gives the key path of a *fastjson.Value-typed SSA value relative to the function's own value
-// parameter; ok=false when it does not derive from it.
-func (t *tables) valuePath(v ssa.Value, depth int) ([]keyElem, bool) {
+// valuePaths gives the key paths (relative to the function's own value parameter) a *fastjson.Value-typed SSA
+// value may stand for; ok=false when it does not derive from the parameter (or a freshly parsed document).
+func (t *tables) valuePaths(v ssa.Value, depth int) ([][]keyElem, bool) {
 	if depth > 10 {
 		return nil, false
 	}
 	switch x := v.(type) {
 	case *ssa.Parameter:
-		return nil, isFastjsonValuePtr(x.Type())
+		if isFastjsonValuePtr(x.Type()) {
+			return [][]keyElem{nil}, true
+		}
+		return nil, false
 	case *ssa.FreeVar:
 		if b, ok := t.pr.fvMap[x]; ok {
-			return t.valuePath(b, depth+1)
+			return t.valuePaths(b, depth+1)
 		}
 	case *ssa.Phi:
-		var first []keyElem
+		var out [][]keyElem
+		have := map[string]bool{}
 		got := false
 		for _, e := range x.Edges {
 			if e == x {
 				continue
 			}
-			p, ok := t.valuePath(e, depth+1)
+			ps, ok := t.valuePaths(e, depth+1)
 			if !ok {
-				return nil, false
+				continue
 			}
-			if !got {
-				first, got = p, true
-			} else if pathString(p) != pathString(first) {
-				// different depths on different edges (e.g. val = val.Get(prop) under a nil check): use the longer
-				if len(p) > len(first) {
-					first = p
+			got = true
+			for _, p := range ps {
+				if k := pathString(p); !have[k] {
+					have[k] = true
+					out = append(out, p)
 				}
 			}
 		}
-		return first, got
+		// "val = val.Get(prop)" under a nil check joins the parameter itself with the nested value: the nested
+		// lookups are the interesting ones, keep the longest paths only when lengths differ
+		if got {
+			maxLen := 0
+			for _, p := range out {
+				if len(p) > maxLen {
+					maxLen = len(p)
+				}
+			}
+			var keep [][]keyElem
+			for _, p := range out {
+				if len(p) == maxLen {
+					keep = append(keep, p)
+				}
+			}
+			return keep, true
+		}
+		return nil, false
 	case *ssa.UnOp:
 		if x.Op == token.MUL {
-			if al, ok := x.X.(*ssa.Alloc); ok {
-				var best []keyElem
-				got := false
-				for _, s := range storesTo(al) {
-					p, ok := t.valuePath(s.Val, depth+1)
-					if ok && (!got || len(p) > len(best)) {
-						best, got = p, true
-					}
-				}
-				return best, got
-			}
-			if fv, ok := x.X.(*ssa.FreeVar); ok {
+			var al *ssa.Alloc
+			if a, ok := x.X.(*ssa.Alloc); ok {
+				al = a
+			} else if fv, ok := x.X.(*ssa.FreeVar); ok {
 				if b, ok := t.pr.fvMap[fv]; ok {
-					if al, ok := b.(*ssa.Alloc); ok {
-						var best []keyElem
-						got := false
-						for _, s := range storesTo(al) {
-							p, ok := t.valuePath(s.Val, depth+1)
-							if ok && (!got || len(p) > len(best)) {
-								best, got = p, true
+					al, _ = b.(*ssa.Alloc)
+				}
+			}
+			if al != nil {
+				var out [][]keyElem
+				got := false
+				maxLen := 0
+				for _, s := range storesTo(al) {
+					ps, ok := t.valuePaths(s.Val, depth+1)
+					if ok {
+						got = true
+						for _, p := range ps {
+							out = append(out, p)
+							if len(p) > maxLen {
+								maxLen = len(p)
 							}
 						}
-						return best, got
 					}
 				}
+				var keep [][]keyElem
+				for _, p := range out {
+					if len(p) == maxLen {
+						keep = append(keep, p)
+					}
+				}
+				return keep, got
 			}
 		}
 	case *ssa.Extract:
 		// val, err := parser.ParseBytes(data): a freshly parsed document is a root
 		if call, ok := x.Tuple.(*ssa.Call); ok && isFastjsonValuePtr(x.Type()) {
 			if cal := call.Common().StaticCallee(); cal != nil && isFastjsonMethod(cal) && !isFastjsonValuePtr(cal.Signature.Recv().Type()) {
-				return nil, true
+				return [][]keyElem{nil}, true
 			}
 		}
 	case *ssa.Call:
 		cal := x.Common().StaticCallee()
 		if isFastjsonMethod(cal) && isFastjsonValuePtr(x.Type()) && len(x.Common().Args) >= 1 {
-			base, ok := t.valuePath(x.Common().Args[0], depth+1)
+			bases, ok := t.valuePaths(x.Common().Args[0], depth+1)
 			if !ok {
 				return nil, false
 			}
-			out := append([]keyElem(nil), base...)
+			var keys []keyElem
 			if len(x.Common().Args) >= 2 {
 				if elems, ok := variadicElems(x.Common().Args[len(x.Common().Args)-1]); ok {
 					for _, e := range elems {
-						out = append(out, keyOf(e))
+						keys = append(keys, keyOf(e))
 					}
 				}
+			}
+			var out [][]keyElem
+			for _, b := range bases {
+				out = append(out, append(append([]keyElem(nil), b...), keys...))
 			}
 			return out, true
 		}
 	}
 	return nil, false
+}
+
+// valuePath: single-path convenience (the first of valuePaths).
+func (t *tables) valuePath(v ssa.Value, depth int) ([]keyElem, bool) {
+	ps, ok := t.valuePaths(v, depth)
+	if !ok || len(ps) == 0 {
+		return nil, false
+	}
+	return ps[0], true
 }
 
 func trunc(p []keyElem, n int) []keyElem {
@@ -533,49 +584,59 @@ func (t *tables) lookupsOfCall(call *ssa.Call) [][]keyElem {
 		return nil
 	}
 	if isFastjsonMethod(cal) && len(cc.Args) >= 1 && isFastjsonValuePtr(cc.Args[0].Type()) {
-		base, ok := t.valuePath(cc.Args[0], 0)
+		bases, ok := t.valuePaths(cc.Args[0], 0)
 		if !ok {
 			return nil
 		}
-		// variadic keys?
+		var out [][]keyElem
 		sig := cal.Signature
+		var keys []keyElem
 		if sig.Variadic() && len(cc.Args) >= 2 {
-			if elems, ok := variadicElems(cc.Args[len(cc.Args)-1]); ok && len(elems) > 0 {
-				p := append([]keyElem(nil), base...)
+			if elems, ok := variadicElems(cc.Args[len(cc.Args)-1]); ok {
 				for _, e := range elems {
-					p = append(p, keyOf(e))
+					keys = append(keys, keyOf(e))
 				}
-				return [][]keyElem{trunc(p, 3)}
 			}
 		}
-		if len(base) > 0 {
-			return [][]keyElem{base}
+		for _, base := range bases {
+			p := append(append([]keyElem(nil), base...), keys...)
+			if len(p) > 0 {
+				out = append(out, trunc(p, 3))
+			}
 		}
-		return nil
+		return out
 	}
 	gs := t.getter[cal]
 	if gs == nil || gs.valParam >= len(cc.Args) {
 		return nil
 	}
-	base, ok := t.valuePath(cc.Args[gs.valParam], 0)
+	bases, ok := t.valuePaths(cc.Args[gs.valParam], 0)
 	if !ok {
 		return nil
 	}
 	var out [][]keyElem
-	for _, q := range gs.paths {
-		p := append([]keyElem(nil), base...)
-		for _, e := range q {
-			if e.param >= 0 {
-				if e.param < len(cc.Args) {
-					p = append(p, keyOf(cc.Args[e.param]))
+	for _, base := range bases {
+		for _, q := range gs.paths {
+			p := append([]keyElem(nil), base...)
+			for _, e := range q {
+				if e.param >= 0 {
+					if e.param < len(cc.Args) {
+						k := keyOf(cc.Args[e.param])
+						if k.param == -1 {
+							k.c += e.suffix
+						} else if k.param >= 0 {
+							k.suffix += e.suffix
+						}
+						p = append(p, k)
+					} else {
+						p = append(p, keyElem{c: "<opaque>", param: -2})
+					}
 				} else {
-					p = append(p, keyElem{c: "<opaque>", param: -2})
+					p = append(p, e)
 				}
-			} else {
-				p = append(p, e)
 			}
+			out = append(out, trunc(p, 3))
 		}
-		out = append(out, trunc(p, 3))
 	}
 	return out
 }
